@@ -50,6 +50,17 @@ from bldfm.config_parser import parse_config_dict
 case = json.loads(sys.argv[1])
 raw = C14.make_raw(case)
 cfg = parse_config_dict(raw)
+if case.get("stub"):
+    # shape sweep: the transport solver is replaced (before any fork) by a cheap function of ITS ARGUMENTS, so that every (tower, step)
+    # still has its own distinguishable result and only the drivers' bookkeeping is exercised
+    def _stub(srf_flx, z, profiles, domain, levels, **kw):
+        key = (np.asarray(z).tobytes() + b"".join(np.asarray(p_).tobytes() for p_ in profiles)
+               + repr((tuple(domain), np.asarray(levels).tolist(), sorted((k, repr(v)) for k, v in kw.items() if k != "cache"))).encode())
+        val = int.from_bytes(hashlib.sha256(key).digest()[:6], "big") / 2.0 ** 48
+        ny_, nx_ = np.shape(srf_flx)
+        X_, Y_ = np.meshgrid(np.arange(nx_) * 1.0, np.arange(ny_) * 1.0)
+        return (X_, Y_, np.zeros_like(X_)), np.full((ny_, nx_), val), np.full((ny_, nx_), val + 1.0)
+    itf.steady_state_transport_solver = _stub
 
 def canon(r):
     def sha(a):
@@ -209,7 +220,17 @@ def run(rng, tier, deep):
     if len(cases) > 6:
         cases[5].update(towers=3, steps=3, workers=12, strategy="both", max_delay=0.9, order="perm", timestamps="none")
         cases[6].update(towers=1, steps=5, workers=5, strategy="both", max_delay=0.8, order="reverse", timestamps="ascending")
-    with ThreadPoolExecutor(max_workers=4) as ex:
+    # shape sweep with a stubbed solver (cheap): every (towers, steps, workers, strategy) of a box - the regrouping arithmetic of the
+    # drivers depends on divisibility relations between the three numbers
+    box = [dict(towers=nt, steps=ns, strategy=stg, workers=w, order="perm", prelude_flux=False, parent_threads=1, cache=False, footprint=True,
+                repeat_met=False, timestamps="none", cseed=11 * nt + ns, dseed=7 * w + ns, max_delay=0.02 * min(w, 4), stub=True)
+           for nt in (1, 2, 3, 4, 5) for ns in (1, 2, 3, 4) for w in (1, 2, 3, 4, 5, 6, 8) for stg in ("towers", "time", "both")]
+    if deep or tier == "thorough":
+        sweep = box
+    else:
+        sweep = [box[int(i)] for i in rng.choice(len(box), size=14, replace=False)]
+    cases = cases + sweep
+    with ThreadPoolExecutor(max_workers=8) as ex:
         outs = list(ex.map(run_real, cases))
     for c, o in zip(cases, outs):
         st["oracle_evaluations"] += 1
@@ -228,4 +249,5 @@ def run(rng, tier, deep):
                   "delays injected before the pool forks that force the completion order (pseudo-random, exactly reversed, or a chosen permutation of the tasks), parent NUM_THREADS 1 and 4 (with a parent-side solve so that workers "
                   "inherit a non-trivial state), cache on/off, repeated met conditions within a series, index / ascending / midnight-wrapping / descending / duplicate timestamp labels; correspondence: the Lean pool model "
                   "under EVERY completion order of the small task sets; oracle: every slot's (tower, timestamp, params, sha of conc/flx/grid) bit-exact against "
-                  "real single runs, key order and time order", deep, 0)
+                  "real single runs, key order and time order; plus a shape sweep with a stubbed solver over towers 1..5 x steps 1..4 x workers 1..8 x strategies "
+                  "(a random sample in the quick tier, the whole box in the thorough tier and in the failing-input search)", deep, 0)
